@@ -140,6 +140,11 @@ func TestB2C17NameTrees(t *testing.T) {
 					k = string(bytes.Repeat([]byte{byte('a' + i%3)}, i/3)) + map[int]string{0: "", 1: "\x7f", 2: "\x80"}[i%3]
 				}
 				data[pdf.Name(k)] = pdf.Integer(i)
+				if style == 1 && i%2 == 0 {
+					// the usual case in destination and file trees: the value is an indirect
+					// reference, and it is the reference that is stored and returned
+					data[pdf.Name(k)] = pdf.NewReference(uint32(100000+i), 0)
+				}
 			}
 			desc := fmt.Sprintf("names n=%d style=%d (distinct %d)", n, style, len(data))
 			r, root := c17Doc(t, func(w *pdf.Writer) (pdf.Reference, error) { return WriteMap[pdf.Name, NameCodec](w, data) })
